@@ -2373,6 +2373,37 @@ def _takeover_once(fn: ast.AST, pinned: Set[str]) -> bool:
     return False
 
 
+def _inline_single_use_once(fn: ast.AST, pinned: Set[str]) -> bool:
+    """`t = E` under a *new* name that is read exactly once, by the very next statement (its header when that is a loop / if / with), is
+    E written in place (a temporary introduced to shorten a line)."""
+    order, _g, names = _owner_index(fn)
+    pos = {id(s): i for i, s in enumerate(order)}
+    args = {a.arg for x in ast.walk(fn) if isinstance(x, ast.arguments) for a in x.args + x.kwonlyargs + x.posonlyargs + ([x.vararg] if x.vararg else []) + ([x.kwarg] if x.kwarg else [])}
+    for block in _blocks_of(fn):
+        for bi, st in enumerate(block[:-1]):
+            if not (isinstance(st, ast.Assign) and len(st.targets) == 1 and isinstance(st.targets[0], ast.Name) and id(st) in pos):
+                continue
+            x = st.targets[0].id
+            if x in pinned or x in args or isinstance(st.value, (ast.Name, ast.Constant, ast.Lambda, ast.Yield, ast.YieldFrom, ast.Await)):
+                continue
+            refs = [(n, i) for n, i in names if n.id == x]
+            if len(refs) != 2:
+                continue
+            loads = [(n, i) for n, i in refs if isinstance(n.ctx, ast.Load)]
+            nxt = block[bi + 1]
+            if len(loads) != 1 or loads[0][1] != pos.get(id(nxt)):
+                continue
+            if isinstance(nxt, (ast.FunctionDef, ast.AsyncFunctionDef, ast.ClassDef)):
+                continue
+            if any(isinstance(y, (ast.Lambda, ast.ListComp, ast.GeneratorExp, ast.SetComp, ast.DictComp)) and any(z is loads[0][0] for z in ast.walk(y)) for y in ast.walk(nxt)):
+                continue        # inside a comprehension / lambda the expression would be evaluated per element
+            _replace_node(nxt, loads[0][0], copy.deepcopy(st.value))
+            block.pop(bi)
+            ast.fix_missing_locations(fn)
+            return True
+    return False
+
+
 def coalesce_copies(trees: Dict[str, ast.Module]) -> int:
     """Copies of a value under a *new* local name are removed from pinned functions: `x = y` where x is bound once and y keeps
     its value is y itself; `x = y; ...; y = x` with y untouched in between (what inlining a helper that updates its parameter
@@ -2412,7 +2443,7 @@ def coalesce_copies(trees: Dict[str, ast.Module]) -> int:
                                             for t, v in zip(ts, vs) if t != v]
                         ast.fix_missing_locations(fn)
             for _ in range(40):
-                if not (_copy_once(fn, pinned) or _takeover_once(fn, pinned)):
+                if not (_copy_once(fn, pinned) or _takeover_once(fn, pinned) or _inline_single_use_once(fn, pinned)):
                     break
                 n += 1
             if n and any(isinstance(x, (ast.Attribute, ast.Name)) and getattr(x, "attr", getattr(x, "id", "")) == "partial" for x in ast.walk(fn)):
@@ -2968,5 +2999,50 @@ def canonical_numpy_spellings(trees: Dict[str, ast.Module]) -> int:
         t = _NumpySpellings(m)
         t.visit(tree)
         n += t.n
+        ast.fix_missing_locations(tree)
+    return n
+
+
+# -------------------------------------------------------------------------------------------- observability clutter
+_LOG_LEVELS = ("debug", "info", "warning", "warn", "error", "exception", "critical", "log")
+
+
+def drop_observability(trees: Dict[str, ast.Module]) -> int:
+    """Statements that only observe are not part of what is analysed: calls of the logging methods of a module-level logger
+    (`logger.debug(...)`, also under `if logger.isEnabledFor(...)`), `assert` statements (absent from the pinned package; removed by
+    `python -O`), and the index of `for i, x in enumerate(seq)` when nothing but such statements read it."""
+    n = 0
+
+    def is_log(st) -> bool:
+        return isinstance(st, ast.Expr) and isinstance(st.value, ast.Call) and isinstance(st.value.func, ast.Attribute) and st.value.func.attr in _LOG_LEVELS \
+            and isinstance(st.value.func.value, ast.Name) and st.value.func.value.id in ("logger", "_logger", "log", "logging", "LOGGER")
+    for tree in trees.values():
+        for node in ast.walk(tree):
+            for fld in ("body", "orelse", "finalbody"):
+                block = getattr(node, fld, None)
+                if not (isinstance(block, list) and block and isinstance(block[0], ast.stmt)):
+                    continue
+                keep = []
+                for st in block:
+                    if is_log(st) or isinstance(st, ast.Assert):
+                        n += 1
+                        continue
+                    if isinstance(st, ast.If) and not st.orelse and isinstance(st.test, ast.Call) and isinstance(st.test.func, ast.Attribute) \
+                            and st.test.func.attr == "isEnabledFor" and all(is_log(b) or isinstance(b, ast.Pass) for b in st.body):
+                        n += 1
+                        continue
+                    keep.append(st)
+                if not keep and fld == "body":
+                    keep = [ast.copy_location(ast.Pass(), block[0])]
+                block[:] = keep
+        for fn in [x for x in ast.walk(tree) if isinstance(x, (ast.FunctionDef, ast.AsyncFunctionDef))]:
+            for lp in [x for x in ast.walk(fn) if isinstance(x, ast.For)]:
+                if isinstance(lp.target, ast.Tuple) and len(lp.target.elts) == 2 and all(isinstance(e, ast.Name) for e in lp.target.elts) \
+                        and isinstance(lp.iter, ast.Call) and isinstance(lp.iter.func, ast.Name) and lp.iter.func.id == "enumerate" and len(lp.iter.args) == 1 \
+                        and all(k.arg == "start" for k in lp.iter.keywords):
+                    idx = lp.target.elts[0].id
+                    if idx != "_" and sum(1 for x in ast.walk(fn) if isinstance(x, ast.Name) and x.id == idx) == 1:
+                        lp.target, lp.iter = lp.target.elts[1], lp.iter.args[0]
+                        n += 1
         ast.fix_missing_locations(tree)
     return n
